@@ -27,6 +27,33 @@ P = {
     "C14": (True, MC, "4/C14", "stateless model checking of the implementation with a vector-clock happens-before monitor on every chunk-buffer access",
             "On every explored interleaving every pair of accesses to one chunk buffer (cursor fields, bytes) by the worker and the I/O thread must be ordered by happens-before; a worker access inside an I/O refill/flush window is reported as literal overlap; chunk->worker assignment and order are checked on the per-stream block log.",
             "accesses are seen through the guarded hooks in multi_buffergroup.cpp and through the harness's stream objects; a free-running ThreadSanitizer pass checks that the hook set is complete (thorough tier)"),
+    "C05": (True, FE, "4/C05", "exhaustive fault enumeration: every single modification of bounded reference-made files, real verify+decrypt per modified file",
+            "For 30 (thorough: 270) encrypted files covering every cipher/hash mode, T in {1,2,4} and six sizes, every single-bit flip, every header byte value, every truncation, insertion, deletion, extension and block/chunk/IV swap is applied and the real verify and decrypt are run; accepted only if both fail or both succeed with the original plaintext.",
+            "single modifications (plus header-byte x body-bit pairs in thorough); files made by the reference model; canonical schedule; ASan"),
+    "C06": (True, FE, "4/C06", "exhaustive enumeration of all 128 single-bit key neighbours (+4 structured keys) per file",
+            "Every single-bit neighbour of the key, plus all-zero, all-FF, rotated and reversed keys, against 30 (thorough 270) files: verify and decrypt must both fail and the output stream must stay empty.",
+            "keys at Hamming distance 1 and four structured keys; other wrong keys are covered only through HMAC's correctness (C08)"),
+    "C07": (True, EX, "4/C07", "exhaustive enumeration of message lengths across every block/padding/refill boundary, both entry points, three refill sizes, against libcrypto",
+            "Every length 0..320 (string entry) and 0..3R+65 (file buffer, R=64/128/192 via the guarded override, with/without prefix block, 4 start offsets) for SHA-1, MD5, SHA-256; thorough adds four lengths around 2^29 bytes (bit counter crossing 2^32).",
+            "contents from a 4-member alphabet (+0x80 at every position); libcrypto as oracle"),
+    "C08": (True, EX, "4/C08", "exhaustive enumeration of message lengths x start positions x keys for HMAC, every single-bit tag deviation for the comparison, against OpenSSL HMAC",
+            "gethmac over [pos,EOF) for every length 0..3R+65, 10 (thorough 81) start positions, 5 keys, 3 hash modes; cmphmac accepts the RFC 2104 tag and rejects each single-bit change; tag placement and zero fill checked on files written by the real encrypt for T in {1,2,3,4,5,16}.",
+            "OpenSSL HMAC() as oracle; keys from a 5-member alphabet"),
+    "C09": (True, EX, "4/C09", "exhaustive enumeration of all table entries and of all one-key-byte x one-block-byte deviations from base pairs, against libcrypto",
+            "All four lookup tables are checked entry by entry against their mathematical definition; every (key, block) differing from a base pair in one key byte and one block byte (16.8M pairs per base) and all 128x128 single-bit pairs are encrypted/decrypted by the real code and compared with libcrypto.",
+            "bounded-alphabet claim: 2^256 inputs cannot be enumerated; multi-byte data interactions are covered only through the 4 bases"),
+    "C10": (True, EX, "4/C10", "exhaustive enumeration of all block sequences up to length 4 over a 3-block alphabet x every counter-carry depth, plus 65,539-block streams, against EVP",
+            "For each of the five modes: 3 keys x 20 IVs (last k bytes 0xFF, k=0..16, so the CTR carry passes through every depth) x all 121 block sequences of length 0..4, and long streams crossing one and two counter byte boundaries; encryptor, decryptor-as-inverse and decryptor compared with libcrypto EVP.",
+            "sequence alphabet of 3 blocks; keys/IVs from small alphabets"),
+    "C11": (True, FE, "4/C11", "exhaustive enumeration of malformed-file shapes (every truncation, every short length, every mode-byte pair, ...) with the real verify+decrypt in forked ASan children",
+            "Every truncation of 9 valid files, every length 0..80 of three fillers, every magic prefix, all mode-byte pairs (quick: 11x11 borders, thorough: all 65,536) on valid files of all 15 mode combinations, wrong-tag files with 7 body lengths; each must return normally with a failure, write nothing on failure and at most the body length on success. A pseudo-random garbage sample is added and labelled as sampling.",
+            "ASan as memory oracle; validly tagged files not made by encryption are outside the domain"),
+    "C12": (True, FE, "4/C12", "exhaustive enumeration over the union of the C05/C06/C11 corpora, differential oracle verify vs decrypt",
+            "For every (file,key) of the modification, wrong-key and malformed corpora the real verify and decrypt are run on fresh copies: results must agree, verify must leave its output stream empty and the input bytes must be unchanged.",
+            "corpus bounded as in C05/C06/C11 (10 base files for the modification part)"),
+    "C16": (True, EX, "4/C16", "exhaustive enumeration of all base64 groups (2^24 encodes, 64^4 decodes) and of all '=' placements / byte substitutions for the key validator, two-sided oracle with a don't-care class",
+            "Encoder on all 2^24 three-byte groups and all tails; decoder on all four-symbol groups and padded tails; validator on all 2^24 '=' placements, every byte at every position, class pairs, all lengths 0..40; accepted strings are decoded into a 16-byte heap buffer under ASan; printed keys round-trip.",
+            "RFC 4648 reference written in the harness (cross-checked with Python base64 in setup)"),
 }
 PENDING = {}
 
